@@ -1,0 +1,51 @@
+//go:build verif
+
+package evm
+
+import (
+	sdk "github.com/cosmos/cosmos-sdk/types"
+	authtypes "github.com/cosmos/cosmos-sdk/x/auth/types"
+
+	"github.com/haqq-network/haqq/x/evm/keeper"
+	"github.com/haqq-network/haqq/x/evm/types"
+)
+
+// Specification-only Go for the deductive checker in /verif (compiled only with -tags verif, never called).
+
+// specAuthAccounts stands for the abstract sequence auth_list of the lib spec (accounts of the auth store in store order);
+// its contract defines it, the body is never executed.
+func specAuthAccounts(_ types.AccountKeeper, _ sdk.Context) []authtypes.AccountI {
+	panic("specification only")
+}
+
+// modelIterateAccounts is the assumed behaviour of the auth keeper's IterateAccounts (cosmos-sdk x/auth/keeper/account.go):
+// cb is called on every stored account, in store order, until it returns true.
+func modelIterateAccounts(ak types.AccountKeeper, ctx sdk.Context, cb func(account authtypes.AccountI) bool) {
+	for _, acc := range specAuthAccounts(ak, ctx) {
+		if cb(acc) {
+			break
+		}
+	}
+}
+
+// Ghost compositions: the round-trip statements of C19 are the postconditions of these functions, proved from the contracts of
+// ExportGenesis and InitGenesis and the lemmas of zz_contracts_c19_verif.go.
+
+// verifFreshChain stands for "a fresh chain": the EVM module store is empty (the auth accounts have already been imported by
+// the auth module's own InitGenesis, which runs before the EVM module's).
+func verifFreshChain() {}
+
+// verifReimport: export at any height, initialise a fresh chain from the document.
+func verifReimport(ctx sdk.Context, ctx2 sdk.Context, k *keeper.Keeper, ak types.AccountKeeper) {
+	g := ExportGenesis(ctx, k, ak)
+	verifFreshChain()
+	InitGenesis(ctx2, k, ak, *g)
+}
+
+// verifReexport: export, initialise a fresh chain from the document, export again.
+func verifReexport(ctx sdk.Context, ctx2 sdk.Context, k *keeper.Keeper, ak types.AccountKeeper) (*types.GenesisState, *types.GenesisState) {
+	g := ExportGenesis(ctx, k, ak)
+	verifFreshChain()
+	InitGenesis(ctx2, k, ak, *g)
+	return g, ExportGenesis(ctx2, k, ak)
+}
